@@ -46,6 +46,27 @@ func checkC18(c *Ctx) {
 						ok = true
 					}
 				}
+				// the count may be carried to the reslice in a variable (`consumed = nin … b = b[consumed:]`):
+				// every non-constant source of the bound is the decoder's count
+				eachInstr(ik, func(in ssa.Instruction) {
+					sl, isSl := in.(*ssa.Slice)
+					if !isSl || sl.High != nil || sl.Low == nil {
+						return
+					}
+					srcs := phiSources(sl.Low)
+					if len(srcs) == 0 {
+						return
+					}
+					all := true
+					for _, src := range srcs {
+						if src != pl.nSrc {
+							all = false
+						}
+					}
+					if all {
+						ok = true
+					}
+				})
 			}
 			c.Check(ok, "C18-R1", "InjectKeyBytes:advance-by-nSrc", p.pos(pl.call.Pos()), "b = b[nSrc:] after a successful decode")
 		}
